@@ -492,11 +492,16 @@ class FComponent(Sequence):
         return value
 
     def replace(self, other, recursive=True):
-        super().replace(other, recursive)
-        for attr in self._extra_kwargs:
-            if hasattr(other, attr):
-                setattr(self, attr, getattr(other, attr))
-        return self
+        # `Sequence.replace` returns a new object when `recursive`, with
+        # the position filled in for `self` and its children.
+        new = super().replace(other, recursive)
+        if not recursive:
+            # (As in `as_model`, which rebuilds a component and then
+            # takes the attributes of the original.)
+            for attr in self._extra_kwargs:
+                if hasattr(other, attr):
+                    setattr(new, attr, getattr(other, attr))
+        return new
 
     def __repr__(self):
         return "hy.models.FComponent({})".format(
